@@ -520,9 +520,16 @@ def canon(v: Dict[str, Any], ts: TS, model: Model, txs: List[Dict[str, Any]], cl
                         crank.get(s.id, "?"), sid_(near), mi(s.mlist), tuple(mans), s.err is not None))
     reach = ts.reachable()
 
+    def agerep(age_ms: int) -> Any:
+        # STEP-BACK: ages can be negative and ms differences decide which side of "now" a file lies on after the
+        # next ticks, so small ages are kept exactly there; otherwise the bucket relative to the graces is enough
+        if exact and age_ms < 60_000:
+            return age_ms
+        return ("b", age_bucket(age_ms)) if exact else age_bucket(age_ms)
+
     def bucket(rel: str) -> Any:
         mt = ts.files.get(rel)
-        return "gone" if mt is None else age_bucket(clock_ms - ms(mt))
+        return "gone" if mt is None else agerep(clock_ms - ms(mt))
 
     ages_f = tuple(bucket(p) for p in fidx)  # insertion order == index order
     ages_m = tuple(bucket(p) for p in midx)
@@ -532,7 +539,7 @@ def canon(v: Dict[str, Any], ts: TS, model: Model, txs: List[Dict[str, Any]], cl
         w = [p.lstrip("/") for p in tx["written"]]
         tx_files.update(w)
         txs_c.append((tuple(bucket(p) for p in w), tuple(bucket(mk) for mk in tx["markers"]),
-                      age_bucket(clock_ms - ms(tx["born"])), len(tx["ops"])))
+                      agerep(clock_ms - ms(tx["born"])), len(tx["ops"])))
         tx_files.update(tx["markers"])
     protected = {t for (t, age) in markers.values() if age <= INFLIGHT_TIMEOUT_MS}
     log_files = {str(e.get("metadata-file", "")).lstrip("/") for e in md.get("metadata_log", [])}
@@ -545,7 +552,11 @@ def canon(v: Dict[str, Any], ts: TS, model: Model, txs: List[Dict[str, Any]], cl
             tgt = markers.get(rel, ("?", 0))[0]
             k: Any = (c, bucket(rel), tgt in ts.files, tgt in reach)
         elif c == "metadata_json":
-            k = (c, bucket(rel), rel in log_files, rel.rsplit("/", 1)[-1] in model.versions)
+            # ages of metadata json files are not part of the form: nothing in the library depends on them
+            # (garbage collection only scans data/ and metadata/manifests/)
+            k = (c, rel in log_files, rel.rsplit("/", 1)[-1] in model.versions)
+        elif c in ("other", "pointer"):
+            k = (c,)
         else:
             k = (c, bucket(rel), rel in protected)
         inv[k] = inv.get(k, 0) + 1
@@ -1065,7 +1076,8 @@ def search(prop: str, tier: str, seed: int, variants: List[Dict[str, Any]], orac
             if s["sid"]:
                 _rm(s["sid"])
         for name in byname:
-            per_depth[name].append(sum(1 for s in new if s["vid"] == name))
+            if d + 1 <= byname[name]["depth"]:
+                per_depth[name].append(sum(1 for s in new if s["vid"] == name))
         frontier = new
     # witness validation: every `witness_stride`-th state's history is re-executed from the initial table
     items: Dict[str, List[Any]] = {n: [] for n in byname}
